@@ -130,6 +130,15 @@ pub enum Op {
     Tls(usize),
     TlsTry(usize),
     Lazy(usize),
+    TlsNest(usize, usize),
+    TlsStat(usize),
+    TlsObs(usize),
+    LazyStat(usize),
+    BlockOn(usize, usize),
+    Wake(usize),
+    WakeRef(usize),
+    DropWaker(usize),
+    AwWake(usize),
     Stop,
     Explore,
     Skip,
@@ -156,6 +165,8 @@ pub struct Cfg {
     pub ckpt: Option<String>,
     /// C06: a panicking thread drops the guards / handles it owns while unwinding
     pub unwind: bool,
+    pub n_futures: usize,
+    pub tls_dtor: usize,
 }
 
 impl Default for Cfg {
@@ -177,6 +188,8 @@ impl Default for Cfg {
             n_chans: 0,
             ckpt: None,
             unwind: false,
+            n_futures: 0,
+            tls_dtor: 0,
         }
     }
 }
@@ -298,6 +311,15 @@ fn parse_op(t: &[&str]) -> Option<Op> {
         ["tls", k] => Op::Tls(n(k)?),
         ["tlstry", k] => Op::TlsTry(n(k)?),
         ["lazy", z] => Op::Lazy(n(z)?),
+        ["tlsnest", k, j] => Op::TlsNest(n(k)?, n(j)?),
+        ["tlsstat", k] => Op::TlsStat(n(k)?),
+        ["tlsobs", k] => Op::TlsObs(n(k)?),
+        ["lazystat", z] => Op::LazyStat(n(z)?),
+        ["blockon", f, m] => Op::BlockOn(n(f)?, n(m)?),
+        ["wake", f] => Op::Wake(n(f)?),
+        ["wakeref", f] => Op::WakeRef(n(f)?),
+        ["dropwaker", f] => Op::DropWaker(n(f)?),
+        ["awwake", f] => Op::AwWake(n(f)?),
         ["stop"] => Op::Stop,
         ["explore"] => Op::Explore,
         ["skip"] => Op::Skip,
@@ -339,6 +361,8 @@ fn parse_cfg(s: &str) -> Option<Cfg> {
             "q" => c.n_chans = n(v)?,
             "ckpt" => c.ckpt = Some(v.to_string()),
             "unwind" => c.unwind = n(v)? != 0,
+            "f" => c.n_futures = n(v)?,
+            "tlsdtor" => c.tls_dtor = n(v)?,
             _ => return None,
         }
     }
